@@ -12,7 +12,7 @@ LEVEL_TEXT = (
 LEVEL_NOTE = cc.MODEL_NOTE + ". pallas' PlutusData encoder is not modelled; that its bytes follow the convention is decided per case by reading them with specRead."
 PROP = "C09"
 TARGETS = ["Tx3Proofs.C09"]
-THEOREMS = ["Tx3.Cbor.beNat_natToBytes", "Tx3.PData.C09_read_write", "Tx3.PData.C09_constr_tag", "Tx3.C09_struct", "Tx3.C09_roundtrip_of_expr"]
+THEOREMS = ["Tx3.Cbor.beNat_natToBytes", "Tx3.PData.C09_read_write", "Tx3.PData.C09_constr_tag", "Tx3.C09_struct", "Tx3.C09_roundtrip_of_expr", "Tx3.PData.C09_bytes_read_write"]
 ASSUMPTIONS = [cc.MODEL_NOTE, "constructor indices are drawn from 0..6, 7..127, the boundaries {6,7,8,127,128,129,139,1000}; integers from the i128 boundary set"]
 
 
